@@ -11,9 +11,11 @@ for name in "$@"; do
   cd $wt && git checkout -q -- . && rm -rf tests
   feats=""
   grep -q 'unsize\|arc_swap\|arc-swap' $d/patch.diff $d/demo.rs 2>/dev/null && feats="--features unsize,arc-swap"
+  grep -q -- "--no-default-features --test" $d/README.md 2>/dev/null && feats="--no-default-features"
+  grep -q "extern crate serde" $d/demo.rs 2>/dev/null && printf '\n[dev-dependencies]\nserde = "1.0"\n' >> Cargo.toml
   {
     echo "seed: $name   date: $(date -u +%F)   base: $(git -C /repo rev-parse --short HEAD)"
-    git apply $d/patch.diff && echo "patch applies: yes" || { echo "patch applies: NO"; continue; }
+    git apply $d/patch.diff && echo "patch applies: yes (demo flags: $feats)" || { echo "patch applies: NO"; continue; }
     cargo build --offline -q 2>/dev/null && cargo build --offline -q --no-default-features 2>/dev/null && cargo build --offline -q --features unsize,arc-swap 2>/dev/null && echo "builds (default / no-default / unsize,arc-swap): yes" || echo "builds: NO"
     t=$(cargo test --offline $feats 2>&1 | grep "test result" | head -1); echo "existing tests with the change: $t"
     mkdir -p tests && cp $d/demo.rs tests/seed_demo.rs
@@ -29,7 +31,7 @@ for name in "$@"; do
       done
     fi
     echo "demo with the change ($mode): $r"
-    git checkout -q -- src Cargo.toml
+    git checkout -q -- src
     if [ $mode = native ]; then
       r2=$(cargo test --offline $feats --test seed_demo 2>&1 | grep -E "test result|error" | head -1)
     else
